@@ -12,8 +12,9 @@
           nothing but item_next and crc32 differs (strict = false also admits bytes 8..27 all zero: see
           C03_repair_zero_header_refuted in Properties_C03_repair.v),
      (c)  in-place writes of the payload of a TRACK_*_HEAD chunk (at most 128 bytes at o + 32 where a CRC-valid
-          header with that payload_length stands / stood at o, and where the file given to the open has a
-          TRACK_*_HEAD header with payload_length 128) immediately followed by zero pad + CRC of exactly those bytes,
+          header with that payload_length stands / stood at o, and where the file given to the open has a header of
+          chunk kind HEAD - tag & 7 = 1, the test of jls_core_scan_signals - with payload_length 128, the chunk
+          lying completely inside the file) immediately followed by zero pad + CRC of exactly those bytes,
      (d)  appends at exactly the current end of the file of complete chunks: a 32-byte CRC-valid header with
           item_next = 0 and tag FSR INDEX or FSR SUMMARY, then a non-empty payload whose length is the header's
           payload_length field, then zero pad + CRC; or the 32 bytes of an END chunk header (payload_length 0),
@@ -133,7 +134,7 @@ Definition rw_seen_pl (hist : list (list N)) (o : N) (pl : N) : bool :=
   existsb (fun g => match rw_hdr_at g o with Some h0 => fm_payload_length h0 =? pl | None => false end) hist.
 Definition rw_seen_head (hist : list (list N)) (o : N) : bool :=
   existsb (fun g => match rw_hdr_at g o with
-                    | Some h0 => fm_is_head_tag (fm_tag h0) && (fm_payload_length h0 =? SIZEOF_track_head)
+                    | Some h0 => (fm_tag_chunk_kind (fm_tag h0) =? JLS_TRACK_CHUNK_HEAD) && (fm_payload_length h0 =? SIZEOF_track_head)
                     | None => false end) hist.
 
 Lemma rw_existsb_incl : forall (A : Type) (p : A -> bool) l l', incl l l' -> existsb p l = true -> existsb p l' = true.
@@ -192,7 +193,7 @@ Definition rw_next (strict : bool) (f : list N) (pos : N) (st : rw_st) (e : wm_e
   | WmSync => []
   | WmTrunc len =>
     match rw_stg st, rw_hdr_at f pos with
-    | RwStart, Some h => rw_opt ((len =? pos + 32 + fm_disk_len (fm_payload_length h)) && (len <=? n) && (32 <=? pos)) RwLastH
+    | RwStart, Some h => rw_opt ((len =? pos + 32 + fm_disk_len (fm_payload_length h)) && (len <=? n)) RwLastH
     | _, _ => []
     end
   | WmWrite off b =>
